@@ -797,6 +797,8 @@ async fn login_pat(h: &mut Harness, c: usize, token_ref: usize) {
     if !h.model.sessions[c].connected {
         return;
     }
+    // `usize::MAX` = the token issued last
+    let token_ref = if token_ref == usize::MAX { h.model.raw_tokens.len().saturating_sub(1) } else { token_ref };
     let Some(token) = h.model.raw_tokens.get(token_ref).cloned() else { return };
     let result = client.login_with_personal_access_token(&token).await;
     let validity = token_valid(h, token_ref);
